@@ -188,6 +188,37 @@ def n14_mut_self(toks, counts):
 
 
 
+def n15_errmsg(toks, counts):
+    """N15 (opt-in `n15=1`): the TEXT of an error message is not interpreted by any contract.
+    `format!(...).into()` and `"literal".into()` become `errmsg_()` (an assumed, unspecified `Cow<'static, str>`);
+    a bare `format!(...)` becomes `errstr_()` (an unspecified String)."""
+    out = []
+    i, n = 0, len(toks)
+    def is_into(k):
+        return k + 4 < n + 1 and k + 3 < n and is_p(toks[k], ".") and is_id(toks[k + 1], "into") and is_p(toks[k + 2], "(") and is_p(toks[k + 3], ")")
+    while i < n:
+        t = toks[i]
+        if is_id(t, "format") and i + 2 < n and is_p(toks[i + 1], "!") and is_p(toks[i + 2], "("):
+            close = match_close(toks, i + 2)
+            if is_into(close + 1):
+                out.extend(frag("errmsg_()", t.trivia))
+                i = close + 5
+            else:
+                out.extend(frag("errstr_()", t.trivia))
+                i = close + 1
+            counts["N15"] = counts.get("N15", 0) + 1
+            continue
+        if t.kind == "str" and t.text.startswith('"') and is_into(i + 1):
+            out.extend(frag("errmsg_()", t.trivia))
+            counts["N15"] = counts.get("N15", 0) + 1
+            i += 5
+            continue
+        out.append(t)
+        i += 1
+    return out
+
+
+
 def n6_debug_assert(toks, counts):
     out = []
     i, n = 0, len(toks)
@@ -721,7 +752,9 @@ def n12_const(toks, counts):
             continue
         if not seen_eq and is_p(t, "&") and not (i + 1 < len(toks) and toks[i + 1].kind == "life"):
             out.append(t)
-            out.append(mk("life", "'static", t))
+            out.append(Tok("life", "'static", "", t.line, "norm"))
+            if i + 1 < len(toks) and toks[i + 1].trivia == "":
+                toks[i + 1] = toks[i + 1].clone(trivia=" ")
             continue
         if not seen_eq and depth == 0 and is_p(t, "="):
             out.append(mk("punct", "{", t))
@@ -750,6 +783,8 @@ def apply_all(toks, repo, opts, notes):
         toks = drop_tokens(toks, set(opts["drop"]), counts)
     toks = n6_debug_assert(toks, counts)
     toks = n14_mut_self(toks, counts)
+    if opts.get("n15"):
+        toks = n15_errmsg(toks, counts)
     if opts.get("n13"):
         toks = n13_match_bytestr(toks, counts)
     toks = n8_bytestr(toks, counts)
